@@ -3,7 +3,7 @@ import vlib
 from checks import tracker_common as tc
 MANIFEST = dict(level="model_checking", design="4 (C04)",
     technique="TLA+ spec (Tracker.tla): frame condition and commutation of scene bodies checked by TLC; TLC-enumerated multi-scene histories replayed into the real trackers",
-    text="TLC asserts on every predict transition that tracks and epochs of other scenes are unchanged and that a continued track belongs to the call's scene, and (thorough) that predict bodies of different scenes commute. Every two-scene call sequence (scenes share the same slots) up to depth 3 (thorough: 4 and simulations) is replayed into the real trackers; the specification computes each scene's grouping independently, so any cross-scene attachment or influence appears as a mismatch (signature predict:id:foreign-scene or a per-scene record/epoch mismatch). R2: an interleaved multi-scene run of random moving objects and the runs of each scene alone are recorded and related by TLC (Pairing.tla, id bijection): equal grouping, boxes, epochs, lengths; every other run holds a small scene with crafted contests in which the greedy choice is not optimal, and in some runs one scene is 150 epochs ahead of the others.",
+    text="TLC asserts on every predict transition that tracks and epochs of other scenes are unchanged and that a continued track belongs to the call's scene, and (thorough) that predict bodies of different scenes commute. Every two-scene call sequence (scenes share the same slots) up to depth 3 (thorough: 4 and simulations) is replayed into the real trackers; the specification computes each scene's grouping independently, so any cross-scene attachment or influence appears as a mismatch (signature predict:id:foreign-scene, proj:epochs:foreign-scene - the epoch counter of a scene the operation does not name has moved - or a per-scene record/epoch mismatch). The detections of a batch are added to the request scene by scene or round-robin across its scenes (the order of add calls across scenes carries no meaning). R2: an interleaved multi-scene run of random moving objects and the runs of each scene alone are recorded and related by TLC (Pairing.tla, id bijection): equal grouping, boxes, epochs, lengths; every other run holds a small scene with crafted contests in which the greedy choice is not optimal, and in some runs one scene is 150 epochs ahead of the others.",
     note="R1 slot world; ids modulo renaming for batch kinds. The R2 pairing of interleaved vs single-scene runs is part of the trace engine (see DESIGN 4, C04).")
 LEVEL = MANIFEST["level"]
 RULE = ("behaviours = all two-scene API call sequences of the stated depth over the GenTR alphabet plus simulations; "
